@@ -69,7 +69,26 @@ func checkCase(c Case) fw.Outcome {
 	for _, f := range c.Enabled {
 		feats[f] = true
 	}
-	inl, notes, err := sg.Inline(c.Mods)
+	// an unprefixed feature name in a grouping body means the feature of the grouping's module: spelled with that
+	// module's prefix it means the same wherever the text is copied to (modules are imported under their own prefix)
+	pre := sg.Clone(c.Mods)
+	for _, m := range pre {
+		var qualify func(kids []*sg.Node)
+		qualify = func(kids []*sg.Node) {
+			for _, k := range kids {
+				for i, f := range k.IfFeatures {
+					if !strings.Contains(f, ":") {
+						k.IfFeatures[i] = m.Prefix + ":" + f
+					}
+				}
+				qualify(k.Kids)
+			}
+		}
+		for _, g := range m.Groupings {
+			qualify(g.Kids)
+		}
+	}
+	inl, notes, err := sg.Inline(pre)
 	// text copied from a grouping of module A into module B may name a module C that A imports and B does not (a grouping
 	// of A using one of C): the in-place spelling needs that import (every module is imported under its own prefix here)
 	for _, im := range inl {
